@@ -63,6 +63,11 @@ class C11(ProgramProperty):
             tags.append("value-already-known")
         if kset - set(ps):
             tags.append("unknown-key")
+        if rng.random() < 0.35:
+            rm2 = [[k, cps("second" + uncps(v))] for k, v in rm[:2]]
+            steps += gen.live_tail(rng, recs, 0, [1], redo=[{"op": "remap_curie", "dst": 5, "src": 0, "mapping": rm},
+                                                            {"op": "remap_curie", "dst": 6, "src": 0, "mapping": rm2}])
+            tags.append("history:live-objects")
         return {"steps": steps, "rm": rm, "uris": uris, "prefixes": ps[:6], "tags": tags or ["plain"],
                 "interesting": bool((kset & vset) or (vset & set(ps)))}
 
